@@ -1,5 +1,75 @@
-(* C07 — Names are deterministic and survive serialization (placeholder for the naming model). *)
-From DA Require Import PyBase.
+(* C07 — Names are deterministic and survive serialization.
+   Statements only; model in theories/Names.v, proofs in theories/NamesFacts.v. *)
+From Coq Require Import ZArith List Bool.
+From DA Require Import Names NamesFacts.
+Import ListNotations.
 Open Scope Z_scope.
-Example C07_placeholder : zsum [1;2;3] = 6. Proof. reflexivity. Qed.
-Print Assumptions C07_placeholder.
+
+(* `name_of` is a FUNCTION of the expression tree, the tokenizer H and the id() oracle `addr`; nothing else
+   (no counters, no construction order, no registry state) enters.  Object identity only enters through
+   operands that have no deterministic token ((type(v), id(v)) / lock ids): without such operands two
+   builds of the same program — in this process or in one with entirely different addresses — get the
+   same name and the same token. *)
+Theorem C07_name_deterministic :
+  forall (hash : Type) (H Hp : list (harg hash) -> hash) (pfx_getitem : Z) (addr addr' : Z -> Z) (e : expr),
+    obj_free e ->
+    name_of hash H Hp addr pfx_getitem e = name_of hash H Hp addr' pfx_getitem e /\
+    token_of hash H Hp addr pfx_getitem e = token_of hash H Hp addr' pfx_getitem e.
+Proof. exact name_deterministic. Qed.
+
+(* the documented exception: an identity-tokenised operand leaks the address into the name *)
+Theorem C07_identity_operand_leaks :
+  forall (hash : Type) (H Hp : list (harg hash) -> hash) (pfx_getitem : Z) (addr addr' : Z -> Z),
+    (forall a b, H a = H b -> a = b) -> addr 0 <> addr' 0 ->
+    name_of hash H Hp addr pfx_getitem (Gen 0 0 (AObj 0 ANil)) <>
+    name_of hash H Hp addr' pfx_getitem (Gen 0 0 (AObj 0 ANil)).
+Proof. exact identity_operand_leaks. Qed.
+
+(* reconstruct (reduce e): ArrayExpr.__reduce__ ships (type, operands, deterministic_token, cached
+   properties); Expr._reconstruct rebuilds with _determ_token=token and restores the cache.  Whatever the
+   RECEIVING process' tokenizer H' is, name and token survive (the name is carried, or recomputed from the
+   carried token / the reconstructed child's name through the process-independent pickle hash Hp). *)
+Theorem C07_reduce_roundtrip :
+  forall (hash : Type) (H Hp : list (harg hash) -> hash) (addr : Z -> Z) (pfx_getitem : Z)
+         (H' : list (harg hash) -> hash) (e : expr),
+    rt_name hash H Hp addr pfx_getitem H' true e = name_of hash H Hp addr pfx_getitem e /\
+    rt_token hash H Hp addr pfx_getitem e = token_of hash H Hp addr pfx_getitem e.
+Proof. exact roundtrip_with_cache. Qed.
+
+(* without the cached properties (_pickle_functools_cache = False) the name is recomputed: that is the same
+   name when the receiving tokenizer agrees with the sender's and no Random node's generator has been drawn
+   from since (recomputing `_info` re-draws from the generator in its pickled state; with the cache — the
+   real configuration — nothing is recomputed) *)
+Theorem C07_reduce_roundtrip_recomputed :
+  forall (hash : Type) (H Hp : list (harg hash) -> hash) (addr : Z -> Z) (pfx_getitem : Z)
+         (H' : list (harg hash) -> hash) (e : expr),
+    (forall l, H' l = H l) -> rng_unmoved e ->
+    rt_name hash H Hp addr pfx_getitem H' false e = name_of hash H Hp addr pfx_getitem e.
+Proof. exact roundtrip_without_cache. Qed.
+
+(* ---- examples ---- *)
+Definition ex7_src : expr := Gen 1 10 (ALit 100 (ALit 101 ANil)).
+Definition ex7_tree : expr :=
+  Gen 3 12 (AChild (Reduction 2 11 (Rechunk (SrcRegion ex7_src 0 200 200) 300 0 0 0 0) 400 401 402 0 403 404 0 1 1 ANil 0)
+              (AChild (Random 4 7 7 13 500 501 0 ANil) (ALit 1 ANil))).
+
+Example C07_obj_free_example : obj_free ex7_tree /\ rng_unmoved ex7_tree.
+Proof. cbn. tauto. Qed.
+
+(* a receiving process whose tokenizer is DIFFERENT (tag 999) still sees the same names *)
+Example C07_roundtrip_example :
+  ser_name (rt_name (list Z) (Hx 100) (Hx 101) (fun o => o) 0 (Hx 999) true (TasksRechunk ex7_tree 1 2 3)) =
+  xname (TasksRechunk ex7_tree 1 2 3) /\
+  ser_name (rt_name (list Z) (Hx 100) (Hx 101) (fun o => o) 0 (Hx 100) false (TasksRechunk ex7_tree 1 2 3)) =
+  xname (TasksRechunk ex7_tree 1 2 3) /\
+  (* ... a Random node whose generator moved on (state 0 -> 2) would not survive RECOMPUTATION (it does survive
+     in reality: _info is cached) *)
+  zlist_eqb (ser_name (rt_name (list Z) (Hx 100) (Hx 101) (fun o => o) 0 (Hx 100) false (draw 0))) (xname (draw 0)) = false.
+Proof. vm_compute. repeat split. Qed.
+
+Print Assumptions C07_name_deterministic.
+Print Assumptions C07_identity_operand_leaks.
+Print Assumptions C07_reduce_roundtrip.
+Print Assumptions C07_reduce_roundtrip_recomputed.
+Print Assumptions C07_obj_free_example.
+Print Assumptions C07_roundtrip_example.
